@@ -51,6 +51,18 @@ def exT : State := init { mreps := [], areps := [], treps := [], isAgentClass :=
 example : (addTableRow exT 0 [(0, .int 1)] false).2 = some .missing := by decide
 example : (addTableRow exT 3 [(0, .int 1)] true).2 = some .unknown := by decide
 example : (addTableRow exT 0 [(0, .int 1)] true).1.tables = [(0, [(0, [.int 1]), (1, [.none])])] := by decide
+/-! `add_table_row` as it was before the T1 repair — one loop that validates and appends column by column.  After the
+    repair the code checks every column before the first append, which is why `addTableRow` returns the untouched state
+    on rejection; for the interleaved loop "rejected ⇒ unchanged" is false: the row below is rejected (column 1 is
+    missing) after column 0 has grown, the table is ragged -/
+def interleavedLoop (row : List (Nat × Val)) : Table → Table × Option Err
+  | [] => ([], none)
+  | (c, vs) :: rest =>
+    match row.lookup c with
+    | some v => ((c, vs ++ [v]) :: (interleavedLoop row rest).1, (interleavedLoop row rest).2)
+    | none => ((c, vs) :: rest, some .missing)
+example : interleavedLoop [(0, .int 1)] [(0, []), (1, [])] = ([(0, [.int 1]), (1, [])], some .missing) := by decide
+example : (interleavedLoop [(0, .int 1)] [(0, []), (1, [])]).1 ≠ [(0, []), (1, [])] := by decide
 end Example
 
 end Mesa.Collect
